@@ -30,15 +30,25 @@
       related field by field, set projected or hidden, no pending answer without a set.
     * Props/C02multiB.lean - `broker`: `proj_broker_log` (the log of `p` changes as in the one-partition step on the
       projected set; nothing else of `QRel p` changes).
+    * Props/C02multiP.lean, C02multiP2.lean, C02multiA.lean - ONE relation for all worker steps: `BRp p` (inner state
+      = `projB p` except `stale` and the set at the bridge, which is projected or HIDDEN; pending answer = `projPend`:
+      verdict of `p` / request-level error, base offset of `p`; hidden set => no set and no pending answer).  For
+      `WRel (BRp p)`: `proj_bpRecv_own_p`, `proj_bpRecv_foreign_p` (a set - visible or hidden - may be at the bridge;
+      `recv_ss`: taking a token reads neither `stale` nor the set), `proj_handover_hidden_p`, `proj_handover_visible_p`,
+      `proj_broker_hidden_p` (no step, log of `p` unchanged), `proj_broker_visible_p` (the `broker` step with
+      `projV p r`, pending answers stay related; hypotheses: the answer is well-formed for `p` and an appending answer
+      comes from the leader of `p`), and the assembly `proj_step_partial`: EVERY CHOICE BUT `deliver`, from related
+      states, is no step or one step of `Model.Pipeline` between related states.
   MISSING for `ProjSim`:
-    * ONE relation for all steps: `BRs` (bpRecv) and `BRh` (handover) are different instances of `BR`; the bpRecv lemmas
-      have to be redone for `BRh` (a token taken while a set - visible or hidden - is at the bridge), and `BRh` needs
-      the relation of the pending answers (verdict of `p`, base offset of `p`) to carry `broker` through `WRel`;
-    * `deliver`: the answer step of the worker with several partitions in the set (the two passes of handleSuccess,
-      request-level errors, the re-check of a held message), for visible and for hidden sets;
-    * the decidable side condition on the run (`projOK p cs`: the projected run satisfies `splitOKs`; no message of `p`
-      is held while a foreign set is handed over or answered; no foreign connection error while `p`'s syn is in
-      flight) and the induction along the run.
+    * `deliver` (`proj_deliver`): the answer step of the worker with several partitions in the set (the two passes of
+      handleSuccess, request-level errors, the re-check of a held message).  Visible set: the `deliver` step with
+      `projV p r`, same succ / errs / ret of `p`, offsets from the base of `p`.  Hidden set: no step unless the answer
+      is a connection error (then `closeW` or hand-over + failed request + delivery, as in the replay) or a message of
+      `p` is held (the overflow look-through).  This needs the projection of `BrokerProd.resp` on one partition, which
+      is not proved (only `Props.C02bp.step_fifo`, per-partition accounting of ids).
+    * the decidable side condition `projOK p cs` (the cases excluded above; the broker hypotheses of
+      `proj_broker_visible_p`; the projected run satisfies `splitOKs`) - NOT defined yet - and the induction along the
+      run (`ProjSim_partial`); `proj_step_partial` is the induction step for all choices but `deliver`.
 -/
 import SaramaVerif.Model.PipelineN
 import SaramaVerif.Props.C02split
